@@ -662,6 +662,14 @@ def _desugar_body(stmts):
             orelse, _ = _desugar_body([b])
             out.append(ast.copy_location(ast.If(test=e.test, body=body, orelse=orelse), st))
             changed = True
+        elif isinstance(st, ast.AugAssign) and isinstance(st.value, ast.IfExp) and isinstance(st.target, ast.Name):
+            e = st.value
+            a = ast.copy_location(ast.AugAssign(target=_clone(st.target), op=st.op, value=e.body), st)
+            b = ast.copy_location(ast.AugAssign(target=_clone(st.target), op=st.op, value=e.orelse), st)
+            body, _ = _desugar_body([a])
+            orelse, _ = _desugar_body([b])
+            out.append(ast.copy_location(ast.If(test=e.test, body=body, orelse=orelse), st))
+            changed = True
         elif isinstance(st, ast.Assign) and len(st.targets) == 1 and isinstance(st.targets[0], (ast.Tuple, ast.List)) and isinstance(st.value, (ast.Tuple, ast.List)) \
                 and len(st.targets[0].elts) == len(st.value.elts) and _independent(st.targets[0].elts, st.value.elts):
             # a, b = x, y  with no element reading what another one writes: the same as a = x; b = y
